@@ -233,6 +233,7 @@ type fakeSharedSocket struct {
 	mu      sync.Mutex
 	armed   bool
 	failArm bool
+	failClr bool
 	dlLog   []string
 	sent    []sentRec
 	in      chan dgram
@@ -298,6 +299,12 @@ func (c *fakeSharedSocket) SetWriteDeadline(t time.Time) error {
 		c.armed = true
 		c.dlLog = append(c.dlLog, "now")
 		return nil
+	}
+	if c.failClr {
+		c.failClr = false
+		c.dlLog = append(c.dlLog, "fail")
+
+		return errors.New("fake socket: SetWriteDeadline failed")
 	}
 	c.armed = false
 	c.dlLog = append(c.dlLog, "none")
